@@ -3,11 +3,13 @@ package rules
 import (
 	"fmt"
 	"go/constant"
+	"go/token"
 	"go/types"
 	"strings"
 
 	"golang.org/x/tools/go/ssa"
 
+	"saoverif/internal/cfgx"
 	"saoverif/internal/core"
 	"saoverif/internal/guard"
 	"saoverif/internal/prog"
@@ -91,6 +93,104 @@ func mustPassDeep(r *core.Run, anchor *ssa.Function, s effSite, atoms []guard.At
 		}
 	}
 	return false, firstW
+}
+
+// veiled: the effect site is dominated (in the function that holds it or in an enclosing frame) by a branch whose
+// outcome is computed by calling function VALUES that are not known statically — a table of predicates, a check
+// stored in a field or a slice, a callback that is not a literal at the call under analysis. The guard search cannot
+// see which comparisons such a branch stands for. Returns a description, or "" when nothing of the kind dominates.
+func veiled(r *core.Run, anchor *ssa.Function, s effSite) string {
+	fns := []*ssa.Function{anchor}
+	for _, c := range s.Chain {
+		if h := c.Common().StaticCallee(); h != nil {
+			fns = append(fns, h)
+		}
+	}
+	// dynamicIn: fn (or a helper outside the vocabulary under it) calls a function value that is neither one of its
+	// own parameters (resolved at the call site when a closure is passed) nor a literal
+	var dynamicIn func(fn *ssa.Function, depth int, seen map[*ssa.Function]bool) string
+	dynamicIn = func(fn *ssa.Function, depth int, seen map[*ssa.Function]bool) string {
+		if seen[fn] || depth > 3 {
+			return ""
+		}
+		seen[fn] = true
+		for _, b := range fn.Blocks {
+			for _, ins := range b.Instrs {
+				c, ok := ins.(ssa.CallInstruction)
+				if !ok || c.Common().IsInvoke() {
+					continue
+				}
+				switch v := c.Common().Value.(type) {
+				case *ssa.Function:
+					if r.P.Transparent(v) {
+						if w := dynamicIn(v, depth+1, seen); w != "" {
+							return w
+						}
+					}
+				case *ssa.Builtin, *ssa.MakeClosure:
+				case *ssa.Parameter:
+					// a callback parameter: fine when every caller passes a literal; treated as resolvable
+				default:
+					if _, isSig := v.Type().Underlying().(*types.Signature); isSig {
+						return "a call of a function value (" + r.P.Pos(c.Pos()) + ") taken from a variable, field or slice"
+					}
+				}
+			}
+		}
+		return ""
+	}
+	for lvl := len(fns) - 1; lvl >= 0; lvl-- {
+		var at *ssa.BasicBlock
+		if lvl == len(s.Chain) {
+			at = s.Ins.Block()
+		} else if lvl < len(s.Chain) {
+			at = s.Chain[lvl].Block()
+		}
+		for d := at; d != nil; d = d.Idom() {
+			iff := cfgx.IfOf(d)
+			if iff == nil || d == at {
+				continue // the site's own block decides nothing about reaching the site
+			}
+			v := iff.Cond
+			for {
+				if u, ok := v.(*ssa.UnOp); ok && u.Op == token.NOT {
+					v = u.X
+					continue
+				}
+				break
+			}
+			var call *ssa.Call
+			switch x := v.(type) {
+			case *ssa.Call:
+				call = x
+			case *ssa.Extract:
+				call, _ = x.Tuple.(*ssa.Call)
+			case *ssa.BinOp:
+				if c1, ok := x.X.(*ssa.Call); ok {
+					call = c1
+				} else if e1, ok := x.X.(*ssa.Extract); ok {
+					call, _ = e1.Tuple.(*ssa.Call)
+				}
+			}
+			if call == nil || call.Call.IsInvoke() {
+				continue
+			}
+			switch cv := call.Call.Value.(type) {
+			case *ssa.Function:
+				if r.P.Transparent(cv) {
+					if w := dynamicIn(cv, 0, map[*ssa.Function]bool{}); w != "" {
+						return "the branch at " + r.P.Pos(iff.Pos()) + " is decided by " + r.P.Name(cv) + ", which makes " + w
+					}
+				}
+			case *ssa.Builtin, *ssa.MakeClosure, *ssa.Parameter:
+			default:
+				if _, isSig := cv.Type().Underlying().(*types.Signature); isSig {
+					return "the branch at " + r.P.Pos(iff.Pos()) + " is decided by a call of a function value taken from a variable, field or slice"
+				}
+			}
+		}
+	}
+	return ""
 }
 
 // selectEffects finds the effect instructions of a rule inside fn.
@@ -247,6 +347,8 @@ func evalGuard(r *core.Run, id, fnName string, sel effSel, clauses []clause, min
 				r.Discharge(id, key, r.P.Pos(s.Ins.Pos()), "every path from the entry of "+fnName+" to this effect passes: "+req)
 			} else if len(w) == 1 && w[0] == guard.StateBound {
 				r.Undecide(id, key, r.P.Pos(s.Ins.Pos()), "abstract-state bound exceeded while searching for a bypass path")
+			} else if why := veiled(r, fn, s); why != "" {
+				r.Undecide(id, key, r.P.Pos(s.Ins.Pos()), "not decided: "+why+" — the comparisons that may establish `"+c.Name+"` are reached through function values the analysis cannot resolve; this is neither a pass nor a violation")
 			} else {
 				r.Violate(id, key, r.P.Pos(s.Ins.Pos()), fmt.Sprintf("%s reaches `%s` on a path that does not establish %s: required one of: %s", fnName, s.Slot, c.Name, req), append([]string{"bypass path (branch decisions):"}, w...)...)
 			}
